@@ -118,7 +118,7 @@ func epubMembers(e epubCfg) []zmember {
 		// the content documents carry upper-case suffixes, consistently in the archive,
 		// the manifest and encryption.xml
 		for i := range ms {
-			for _, p := range [][2]string{{"ch1.xhtml", "ch1.XHTML"}, {"ch2.xht", "ch2.XHT"}} {
+			for _, p := range [][2]string{{"ch1.xhtml", "ch1.XHTML"}, {"ch2.xht", "ch2.XHT"}, {"nav.xhtml", "NAV.XHTML"}} {
 				ms[i].name = strings.ReplaceAll(ms[i].name, p[0], p[1])
 				ms[i].data = strings.ReplaceAll(ms[i].data, p[0], p[1])
 			}
@@ -148,4 +148,3 @@ func zipOf(ms []zmember) ([]byte, error) {
 	}
 	return buf.Bytes(), nil
 }
-
